@@ -135,6 +135,22 @@ pub fn hss_verify<H: HashChain>(
     signature: &[u8],
     public_key: &[u8],
 ) -> Result<(), Error> {
+    #[cfg(hbs_lms_verif)]
+    if crate::verif_trace::enter() {
+        use crate::verif_trace as vt;
+        let result = hss_verify::<H>(message, signature, public_key);
+        vt::leave();
+        vt::emit(&std::format!(
+            "{{\"ev\":\"verify\",\"alg\":\"{}\",\"msg\":\"{}\",\"sig\":\"{}\",\"pk\":\"{}\",\"res\":\"{}\",\"vk_from\":\"na\",\"sig_from\":\"na\",\"vk_sig\":\"na\",\"vk_ref\":\"na\",\"panic\":\"\",\"meta\":{{\"recorder\":\"verif_trace\"}}}}",
+            vt::alg::<H>(),
+            vt::hex(message),
+            vt::hex(signature),
+            vt::hex(public_key),
+            if result.is_ok() { "ok" } else { "err" }
+        ));
+        return result;
+    }
+
     let signature = InMemoryHssSignature::<H>::new(signature).ok_or_else(Error::new)?;
     let public_key = InMemoryHssPublicKey::<H>::new(public_key).ok_or_else(Error::new)?;
 
@@ -198,6 +214,59 @@ fn hss_sign_core<H: HashChain>(
     private_key_update_function: &mut dyn FnMut(&[u8]) -> Result<(), ()>,
     aux_data: Option<&mut &mut [u8]>,
 ) -> Result<Signature, Error> {
+    #[cfg(hbs_lms_verif)]
+    if crate::verif_trace::enter() {
+        use crate::verif_trace as vt;
+        let mut message_mut = message_mut;
+        let mut aux_data = aux_data;
+        let is_mut = message_mut.is_some();
+        let msg_in: std::vec::Vec<u8> = match (&message, &message_mut) {
+            (Some(m), _) => m.to_vec(),
+            (None, Some(m)) => m.to_vec(),
+            _ => std::vec::Vec::new(),
+        };
+        let aux_in: Option<std::vec::Vec<u8>> = aux_data.as_ref().map(|a| a.to_vec());
+        let mut log: vt::CbLog = std::vec::Vec::new();
+        let result = {
+            let mut observed = |new_key: &[u8]| {
+                let r = private_key_update_function(new_key);
+                log.push((new_key.to_vec(), r.is_ok()));
+                r
+            };
+            hss_sign_core::<H>(
+                message,
+                message_mut.as_mut().map(|m| &mut **m),
+                private_key,
+                &mut observed,
+                aux_data.as_mut().map(|a| &mut **a),
+            )
+        };
+        vt::leave();
+        let msg_out: std::vec::Vec<u8> = match &message_mut {
+            Some(m) => m.to_vec(),
+            None => msg_in.clone(),
+        };
+        let plan = if log.iter().any(|(_, ok)| !*ok) { "reject" } else { "accept" };
+        vt::emit(&std::format!(
+            "{{\"ev\":\"{}\",\"alg\":\"{}\",\"api\":\"bytes\",\"plan\":\"{}\",\"key\":\"{}\",\"msg\":\"{}\",\"msg_out\":\"{}\",\"has_aux\":{},\"aux_in\":\"{}\",\"aux_out\":\"{}\",\"aux_len\":{},\"cb\":{},\"cb_n\":{},\"res\":\"{}\",\"sig\":\"{}\",\"hash_iterations\":0,\"has_mem\":false,\"mem_after\":\"\",\"stored\":false,\"stored_key\":\"\",\"panic\":\"\",\"meta\":{{\"recorder\":\"verif_trace\"}}}}",
+            if is_mut { "sign_mut" } else { "sign" },
+            vt::alg::<H>(),
+            plan,
+            vt::hex(private_key),
+            vt::hex(&msg_in),
+            vt::hex(&msg_out),
+            aux_in.is_some(),
+            vt::hex(aux_in.as_deref().unwrap_or(&[])),
+            vt::hex(aux_data.as_ref().map(|a| &a[..]).unwrap_or(&[])),
+            aux_data.as_ref().map(|a| a.len()).unwrap_or(0),
+            vt::cb_json(&log),
+            log.len(),
+            if result.is_ok() { "ok" } else { "err" },
+            result.as_ref().map(|s| vt::hex(s.as_ref())).unwrap_or_default()
+        ));
+        return result;
+    }
+
     let mut rfc_private_key = ReferenceImplPrivateKey::from_binary_representation(private_key)
         .map_err(|_| Error::new())?;
 
@@ -278,6 +347,29 @@ pub fn hss_keygen<H: HashChain>(
     seed: &Seed<H>,
     aux_data: Option<&mut &mut [u8]>,
 ) -> Result<(SigningKey<H>, VerifyingKey<H>), Error> {
+    #[cfg(hbs_lms_verif)]
+    if crate::verif_trace::enter() {
+        use crate::verif_trace as vt;
+        let mut aux_data = aux_data;
+        let aux_in: Option<std::vec::Vec<u8>> = aux_data.as_ref().map(|a| a.to_vec());
+        let result = hss_keygen::<H>(parameters, seed, aux_data.as_mut().map(|a| &mut **a));
+        vt::leave();
+        vt::emit(&std::format!(
+            "{{\"ev\":\"keygen\",\"alg\":\"{}\",\"params\":{},\"seed\":\"{}\",\"has_aux\":{},\"aux_in\":\"{}\",\"aux_out\":\"{}\",\"aux_len\":{},\"res\":\"{}\",\"sk\":\"{}\",\"pk\":\"{}\",\"panic\":\"\",\"meta\":{{\"recorder\":\"verif_trace\"}}}}",
+            vt::alg::<H>(),
+            vt::params(parameters),
+            vt::hex(seed.as_slice()),
+            aux_in.is_some(),
+            vt::hex(aux_in.as_deref().unwrap_or(&[])),
+            vt::hex(aux_data.as_ref().map(|a| &a[..]).unwrap_or(&[])),
+            aux_data.as_ref().map(|a| a.len()).unwrap_or(0),
+            if result.is_ok() { "ok" } else { "err" },
+            result.as_ref().map(|(sk, _)| vt::hex(sk.as_slice())).unwrap_or_default(),
+            result.as_ref().map(|(_, pk)| vt::hex(pk.as_slice())).unwrap_or_default()
+        ));
+        return result;
+    }
+
     let private_key =
         ReferenceImplPrivateKey::generate(parameters, seed).map_err(|_| Error::new())?;
 
